@@ -18,6 +18,7 @@ type c06Scan struct {
 	onBefore func(ast.Expr) bool // the expression denotes the event's HighestBefore vector (in g)
 	isN      func(ast.Expr) bool // the expression denotes the examined validator index (in g)
 	hits     []core.Point
+	hitNode  ast.Node // the first hit (its enclosing loops are the pair loops)
 	hitPos   token.Pos
 }
 
@@ -26,7 +27,7 @@ func c06PairScan(c *core.Ctx, sc c06Scan) {
 	const byCr = "vecengine.BranchesInfo.BranchIDByCreators"
 	g := sc.g
 	res := func(e ast.Expr) ast.Expr { return resolveLocal(g, e) }
-	loops := c06LoopsAround(g, sc.hitPos)
+	loops := c06LoopsAround(g, sc.hitNode)
 	c.Need(len(loops) >= 2, "the overlap test sits in two nested loops over the validator's branches")
 	lA, lB := loops[len(loops)-2], loops[len(loops)-1]
 	itA, okA := core.IterationOf(g, lA, res)
@@ -116,7 +117,9 @@ func c06PairScan(c *core.Ctx, sc c06Scan) {
 }
 
 func c06Detect(c *core.Ctx) {
-	f := c.Fn("vecengine.Engine.fillEventVectors")
+	// the inlined view: the scan may be written out in fillEventVectors or live in a method called from
+	// there (with the overlap test in a predicate function)
+	f := c06View(c.Fn("vecengine.Engine.fillEventVectors"), "engine", c06LeafEngine)
 	res := func(e ast.Expr) ast.Expr { return resolveLocal(f, e) }
 	collects := f.CallsMatching(func(cs *core.CallSite) bool { return methodNamed(cs.Name, "CollectFrom") })
 	c.Need(len(collects) >= 1, "fillEventVectors collects the parents' vectors")
@@ -128,14 +131,14 @@ func c06Detect(c *core.Ctx) {
 			return false
 		}
 		root, _ := fieldPath(f, call.Fun.(*ast.SelectorExpr).X)
-		return varOf(f, root) == f.Recv()
+		return varOf(f, res(root)) == f.Recv()
 	}
 	nPair := 0
 	for _, site := range f.CallsTo("vecengine.Engine.setForkDetected") {
 		if len(site.Call.Args) != 2 || !onBefore(site.Call.Args[0]) {
 			continue
 		}
-		loops := c06LoopsAround(f, site.Pos())
+		loops := c06LoopsAround(f, site.Call)
 		if len(loops) == 0 {
 			continue
 		}
@@ -163,7 +166,7 @@ func c06Detect(c *core.Ctx) {
 			return varOf(f, res(core.StripConv(f.Info(), res(e)))) == itN.Index
 		}
 		if len(loops) >= 3 {
-			sc = c06Scan{g: f, onBefore: onBefore, isN: isN, hits: []core.Point{site.Pt}, hitPos: site.Pos()}
+			sc = c06Scan{g: f, onBefore: onBefore, isN: isN, hits: []core.Point{site.Pt}, hitNode: site.Call, hitPos: site.Pos()}
 			if itA, okA := core.IterationOf(f, loops[len(loops)-2], res); okA {
 				scanHead = itA.Head
 			}
@@ -171,9 +174,10 @@ func c06Detect(c *core.Ctx) {
 			// look for a guarding call H(…before…, …n…) == true of a module function with a bool result
 			for _, cs := range f.Calls() {
 				h := f.P.Func(cs.Name)
-				if h == nil || h.Obj == nil || enclosingLoop(f, cs.Pos()) != nLoop {
+				if h == nil || h.Obj == nil || c06Loop(f, cs.Call) != nLoop {
 					continue
 				}
+				h = c06View(h, "engine", c06LeafEngine)
 				sig, _ := h.Obj.Type().(*types.Signature)
 				if sig == nil || sig.Results().Len() != 1 || !types.Identical(sig.Results().At(0).Type().Underlying(), types.Typ[types.Bool]) {
 					continue
@@ -199,8 +203,6 @@ func c06Detect(c *core.Ctx) {
 				if gd, _ := f.GuardedBetween(c06Body(itN), site.Pt, isH); !gd {
 					continue
 				}
-				helper = cs
-				scanPts = []core.Point{cs.Pt}
 				var hits []core.Point
 				okRets := true
 				for _, rp := range h.ReturnPoints() {
@@ -218,11 +220,15 @@ func c06Detect(c *core.Ctx) {
 						hits = append(hits, rp)
 					}
 				}
-				c.Check(okRets && len(hits) >= 1, "the overlap helper answers with constants", "T12", h.Pos(), "every return of "+short(h.Name)+" is true or false", "the helper that guards the fork mark returns something this rule cannot read")
-				if len(hits) == 0 {
+				// a guarding predicate without pair loops (e.g. "some branch of n is already marked") is not the
+				// pair scan: the site it guards is the propagation site
+				if len(hits) == 0 || len(c06LoopsAround(h, hits[0].Node())) < 2 {
 					continue
 				}
-				sc = c06Scan{g: h,
+				helper = cs
+				scanPts = []core.Point{cs.Pt}
+				c.Check(okRets, "the overlap helper answers with constants", "T12", h.Pos(), "every return of "+short(h.Name)+" is true or false", "the helper that guards the fork mark returns something this rule cannot read")
+				sc = c06Scan{g: h, hitNode: hits[0].Node(),
 					onBefore: func(e ast.Expr) bool { return varOf(h, resolveLocal(h, e)) == pBefore },
 					isN: func(e ast.Expr) bool {
 						return varOf(h, resolveLocal(h, core.StripConv(h.Info(), resolveLocal(h, e)))) == pN
